@@ -73,6 +73,9 @@ func (fc *FCtx) resolveSpecType(name string, pkg *packages.Package) (*Sort, type
 	case "Store":
 		return fc.U.StoreSort(), nil
 	}
+	if t, ok := fc.typeArgs[name]; ok {
+		return fc.U.SortOf(t), t
+	}
 	if fc.E.cs.OpaqueSorts[name] {
 		return fc.U.opaque(name), nil
 	}
@@ -752,6 +755,24 @@ func (fc *FCtx) specCall(n *SNode, env *Env) Val {
 			if len(fc.frames) > 0 && env.gsuf == "" && env.scopePos.IsValid() {
 				return Val{T: "true", S: SBool}
 			}
+			// delegation: the context handed on is the caller's own context parameter and the caller itself requires
+			// that parameter to be isolated (its own callers discard the context when it fails)
+			if fc.C != nil && len(fc.frames) >= 1 {
+				for _, r := range fc.C.Requires {
+					if r.Expr != nil && r.Expr.Op == "call" && len(r.Expr.Args) == 2 && r.Expr.Args[0].Op == "id" && r.Expr.Args[0].Name == "isolated" {
+						own := fc.newEnv(fc.entry, fc.entry, fc.FI.Body().Lbrace+1)
+						func() {
+							defer func() { recover() }()
+							if v := fc.specEval(r.Expr.Args[1], own); v.T == args[0].T {
+								ok = true
+							}
+						}()
+					}
+				}
+				if ok {
+					return Val{T: "true", S: SBool}
+				}
+			}
 			return Val{T: "false", S: SBool}
 		}
 		parent := fc.cacheParent[suf]
@@ -811,15 +832,29 @@ func (fc *FCtx) specCall(n *SNode, env *Env) Val {
 	case "typeis", "unbox":
 		// typeis(x, "T"): the dynamic type of the interface value x is T; unbox(x, "T"): its value as a T
 		x := fc.specEval(n.Args[1], env)
-		if x.S.Kind != KOpaque {
-			oos("spec: %s on a non-interface value (%s)", fn.Name, x.S.Name)
-		}
 		if n.Args[2].Op != "str" {
 			oos("spec: %s needs a quoted type", fn.Name)
 		}
 		_, t := fc.resolveSpecType(n.Args[2].Name, env.pkg)
 		if t == nil {
 			oos("spec: %s: not a Go type: %s", fn.Name, n.Args[2].Name)
+		}
+		if x.S.Kind != KOpaque {
+			// a value of statically known type (the argument of an extern whose parameter is an interface is bound
+			// unboxed): decided by the sorts
+			cs := fc.U.SortOf(t)
+			same := cs == x.S || cs.Name == x.S.Name
+			if fn.Name == "typeis" {
+				if same {
+					return Val{T: "true", S: SBool}
+				}
+				return Val{T: "false", S: SBool}
+			}
+			if same {
+				x.GoT = t
+				return x
+			}
+			return Val{T: fc.U.Fresh("unbox_other", cs), S: cs, GoT: t}
 		}
 		if fn.Name == "typeis" {
 			return Val{T: fc.dynTypeIs(x, t), S: SBool}
